@@ -7,7 +7,8 @@ CHECK = dict(
     rule=("programs of 3-14 random decodable integer instructions (plus a counted backward loop in a "
           "third of them) per architecture mode, registers pointing into a read-write page, a read-only "
           "page, next to an unmapped hole; each program runs on the Python and on the GCC back end from "
-          "the same state and the outcomes (registers, every memory page, exception flags, PC, breakpoint "
+          "the same state (half of the breakpoint callbacks write a register or flag the instruction under the "
+          "breakpoint assigns) and the outcomes (registers, every memory page, exception flags, PC, breakpoint "
           "hits, escaping exception) are compared; a lock-step re-run names the first diverging "
           "instruction; distinct = distinct (arch, mnemonic sequence)"),
     assumptions=["the LLVM back end cannot be instantiated (llvmlite absent): Python and GCC only",
@@ -110,13 +111,25 @@ def run_shard(params, rec):
         rec.count("pool_mnemonics")
     for i in range(params["n"]):
         with_loop = rng.random() < 0.45
-        mode = None if with_loop else rng.choice([None, None, None, "straddle", "straddle", "split"])
+        mode = None if with_loop else rng.choice([None, None, None, "straddle", "straddle", "split", "tiny"])
         prog = jitlib.make_prog(spec, rng, pool, rng.randrange(3, 15), with_loop=with_loop, mode=mode,
                                 fault_bias=0.0 if with_loop else rng.choice([0.0, 0.03, 0.1, 0.3, 0.5]))
         rec.count("mode:%s" % mode)
         bps = []
         if rng.random() < 0.5 and prog.instrs:
             bps = sorted(set(rng.choice(prog.instrs)[0] for _ in range(rng.choice([1, 2]))))
+        # half of the breakpoint callbacks change, from outside the engine, a register (or flag) that
+        # the instruction under the breakpoint is about to assign: what an emulated library function does
+        bp_writes = {}
+        for a_ in bps:
+            if rng.random() < 0.6:
+                idx_ = next(k for k, ins in enumerate(prog.instrs) if ins[0] == a_)
+                dr = jitlib.dest_regs(spec, prog, idx_)
+                if rng.random() < 0.25:
+                    dr = dict((g, spec.pc_size) for g in spec.gprs)
+                if dr:
+                    reg = rng.choice(sorted(dr))
+                    bp_writes[a_] = (reg, rng.choice([0, 1, rng.getrandbits(dr[reg])]) & ((1 << dr[reg]) - 1))
         rec.ev()
         rec.count("programs:" + spec.mname)
         outs = {}
@@ -125,7 +138,8 @@ def run_shard(params, rec):
         opts = dict(max_exec_per_call=rng.choice([1, 4, 32]), jit_maxline=rng.choice([50, 50, 7]))
         try:
             for be in ("python", "gcc"):
-                outs[be] = jitlib.run(spec, be, prog, options=opts, breakpoints=bps, max_steps=300, trace=True)
+                outs[be] = jitlib.run(spec, be, prog, options=opts, breakpoints=bps, max_steps=300, trace=True,
+                                      bp_writes=bp_writes)
         except Exception as exc:
             # building a jitter / mapping memory failed: harness trouble, not a verdict
             rec.count("harness_run_error")
@@ -153,6 +167,8 @@ def run_shard(params, rec):
             rec.count("with_breakpoints")
             if gcc.bp_hits:
                 rec.count("breakpoint_hits_seen")
+            if any(a_ in bp_writes for a_ in gcc.bp_hits):
+                rec.count("external_register_writes_seen")
         d = jitlib.diff_outcomes(py, gcc, spec, ignore_regs=(spec.pc_name,))
         rec.count("compared")
         if d is None:
@@ -178,6 +194,7 @@ def run_shard(params, rec):
         wit["gcc"] = gcc.summary(spec)
         wit["diff"] = d
         wit["breakpoints"] = bps
+        wit["breakpoint_register_writes"] = {hex(a_): v for a_, v in bp_writes.items()}
         if tri is not None:
             step, pc, d2, a, b = tri
             for off, ln, txt, nm in prog.instrs:
@@ -189,7 +206,9 @@ def run_shard(params, rec):
         elif not pre.startswith(spec.family + ":"):
             key = pre
         else:
-            key = "%s: %s differs (not reproduced in lock-step)" % (spec.family, d[0])
+            key = "%s: %s differs (not reproduced in lock-step%s)" % (
+                spec.family, d[0], ", a breakpoint callback wrote a register" if
+                any(a_ in bp_writes for a_ in gcc.bp_hits) else "")
         if key.startswith("state after a faulting instruction differs (memory)"):
             idx = next((k for k, ins in enumerate(prog.instrs) if ins[0] == gcc.pc), None)
             if idx is not None and jitlib.count_stores(spec, prog, idx) > 1:
@@ -207,6 +226,8 @@ def floors(tier, counters, evaluations):
         miss.append("fewer than 10% of programs end in a memory fault")
     if counters.get("with_taken_loop", 0) < 0.06 * cmp_:
         miss.append("fewer than 6% of programs take a backward branch")
+    if counters.get("external_register_writes_seen", 0) < 0.05 * cmp_:
+        miss.append("fewer than 5% of programs had a breakpoint callback writing a register")
     for a in ARCHS:
         if counters.get("programs:" + a, 0) == 0:
             miss.append("architecture %s not exercised" % a)
